@@ -3,6 +3,8 @@ package log
 import (
 	"reflect"
 	"unsafe"
+
+	zzvrt "github.com/go-spring/log/zzvrt"
 )
 
 // Accessors added to package log by overlay for the enumeration harness (not part of the library).
@@ -94,4 +96,15 @@ func VerifLive() (ls []Logger, as []Appender) {
 		}
 	}
 	return
+}
+
+// VerifStateHash is the canonical hash of the implementation state reachable from the package-level
+// variables (zzvrt.DeepHash); skip names variables that are left out.
+func VerifStateHash(skip func(name string) bool) uint64 {
+	return zzvrt.DeepHash(VerifGlobals(), reflect.TypeOf(Tag{}).PkgPath(), skip)
+}
+
+// VerifStateHashTrace: the hash with one line per token (debugging).
+func VerifStateHashTrace(skip func(name string) bool) (uint64, []string) {
+	return zzvrt.DeepHashTrace(VerifGlobals(), reflect.TypeOf(Tag{}).PkgPath(), skip)
 }
